@@ -701,6 +701,11 @@ func (e *Eval) doCall(fn *ssa.Function, v *ssa.Call, get func(ssa.Value) Val) Va
 		args = append(args, get(a))
 	}
 	name := calleeName(c)
+	if name == "dynamic" {
+		if fv := get(c.Value); fv.Kind == KOpaque {
+			name = "dynamic:" + fv.Name
+		}
+	}
 	if callee := c.StaticCallee(); callee != nil && len(callee.Blocks) > 0 && e.InScope != nil && e.InScope(callee) {
 		rs := e.call(callee, args)
 		if len(rs) != 1 {
